@@ -6,6 +6,8 @@ package sched
 import (
 	"fmt"
 	"hash/fnv"
+	"os"
+	"time"
 	"strconv"
 	"strings"
 
@@ -24,6 +26,7 @@ type Outcome struct {
 
 // Instance is one fresh run of a scenario.
 type Instance struct {
+	Dump    func() uint64                     // optional: hash of the shared state (enables state-hash pruning)
 	Body    func()                            // thread 0
 	Finish  func(e *vsched.Execution) Outcome // oracle, after the execution ended
 	Monitor func()                            // optional: invariant evaluated at every scheduling point
@@ -61,6 +64,8 @@ type Explorer struct {
 	// enabled one) counts against the bound, not only preemptions. Used for whole-interpreter drivers
 	// whose polling loops offer a free alternative at almost every point.
 	DevBounded bool
+	visited map[uint64]bool
+	Pruned  int64
 	// After is called after every recorded execution with its schedule (C32 reads the race log there).
 	After func(schedule string)
 }
@@ -103,7 +108,7 @@ func RunOnce(sc *Scenario, devs []dev) (*vsched.Execution, Outcome, string) {
 	for i, d := range devs {
 		vd[i] = vsched.Dev{Idx: d.idx, Alt: d.alt, Thread: d.thread, NEn: d.nEn}
 	}
-	e := vsched.Run(vsched.Config{Devs: vd, MaxSteps: sc.MaxSteps, Monitor: inst.Monitor}, inst.Body)
+	e := vsched.Run(vsched.Config{Devs: vd, MaxSteps: sc.MaxSteps, Monitor: inst.Monitor, Dump: inst.Dump}, inst.Body)
 	diverged := e.Diverged
 	if e.Horizon {
 		return e, Outcome{}, "step horizon reached (possible livelock in the harness or in murex; not a verdict)"
@@ -127,6 +132,66 @@ func traceSig(e *vsched.Execution) uint64 {
 		fmt.Fprintf(h, "%d/%d/%d/%v/%d;", p.Thread, p.Kind, p.Site, p.Enabled, p.Chosen)
 	}
 	return h.Sum64()
+}
+
+// ExploreStates: unbounded-preemption search of the reachable state graph of the driver. Every
+// alternative at every scheduling point is explored unless the state of the closed system at that point
+// (Point.Key) has been seen before in this worker: thread code is deterministic, so equal keys have equal
+// futures. Requires Instance.Dump.
+func (x *Explorer) ExploreStates() bool {
+	x.SelfTest()
+	x.visited = map[uint64]bool{}
+	x.child = 0
+	ok := x.exploreStates(nil, 0)
+	x.C.P.States += int64(len(x.visited))
+	return ok
+}
+
+func (x *Explorer) exploreStates(devs []dev, depth int) bool {
+	if x.C.Expired() {
+		return false
+	}
+	if x.C.P.NViolations >= 40 {
+		x.C.P.Exhaustive = false
+		return false
+	}
+	e, o, herr := RunOnce(x.Sc, devs)
+	if herr != "" {
+		x.C.HarnessError("%s schedule %s: %s", x.Sc.Name, schedString(devs), herr)
+	}
+	x.record(e, o, devs, len(devs))
+	start := 0
+	if len(devs) > 0 {
+		start = devs[len(devs)-1].idx + 1
+	}
+	for i := start; i < len(e.Trace); i++ {
+		p := &e.Trace[i]
+		if vsched.DebugKeys {
+			dbgDumps[p.DbgDump] = true
+			for ti, l := range p.DbgLocals {
+				dbgLocals[[2]uint64{uint64(ti), l}] = true
+			}
+		}
+		if x.visited[p.Key] {
+			x.Pruned++
+			break // everything reachable from here has been (or is being) explored from the first visit
+		}
+		x.visited[p.Key] = true
+		for alt := 1; alt < len(p.Enabled); alt++ {
+			if depth == 0 {
+				k := x.child
+				x.child++
+				if !x.Whole && !x.C.Mine(k) {
+					continue
+				}
+			}
+			nd := append(append([]dev{}, devs...), dev{i, alt, p.Thread, len(p.Enabled)})
+			if !x.exploreStates(nd, depth+1) {
+				return false
+			}
+		}
+	}
+	return true
 }
 
 // SelfTest: the same schedule twice must give identical point sequences and observations.
@@ -289,6 +354,48 @@ func RunAllByScenario(c *vlib.Ctx, scs []*Scenario, bound int) { runAll(c, scs, 
 
 // RunAllDev: deviation-bounded (see Explorer.DevBounded), sharded by subtree.
 func RunAllDev(c *vlib.Ctx, scs []*Scenario, bound int) { runAll(c, scs, bound, false, true) }
+
+var dbgDumps = map[uint64]bool{}
+var dbgLocals = map[[2]uint64]bool{}
+
+// RunAllStates: unbounded-preemption reachable-state search (ExploreStates), sharded by scenario.
+func RunAllStates(c *vlib.Ctx, scs []*Scenario) {
+	var execs int64
+	done := 0
+	for i, sc := range scs {
+		if only := os.Getenv("VERIF_ONLY"); only != "" {
+			if !strings.Contains(sc.Name, only) {
+				continue
+			}
+		} else if !c.Mine(uint64(i)) {
+			continue
+		}
+		x := &Explorer{C: c, Sc: sc, Whole: true}
+		vsched.DebugKeys = os.Getenv("VERIF_DEBUGKEYS") != ""
+		t0 := time.Now()
+		ok := x.ExploreStates()
+		if vsched.DebugKeys {
+			per := map[uint64]int{}
+			for k := range dbgLocals {
+				per[k[0]]++
+			}
+			fmt.Printf("distinct dumps=%d, distinct (thread,control-state)=%v\n", len(dbgDumps), per)
+		}
+		if os.Getenv("VERIF_ONLY") != "" {
+			fmt.Printf("%s: execs=%d states=%d pruned=%d %v\n", sc.Name, x.St.Execs, len(x.visited), x.Pruned, time.Since(t0))
+		}
+		execs += x.St.Execs
+		c.Extra("states-pruned", x.Pruned)
+		if !ok {
+			c.Note("scenario %s: stopped before the reachable-state search finished", sc.Name)
+			break
+		}
+		done++
+	}
+	c.Extra("executions", execs)
+	c.Extra("scenarios-fully-explored", int64(done))
+	c.Note("unbounded preemptions: the search ends when every reachable state of the driver has been expanded")
+}
 
 // RunAllDevWhole: deviation-bounded, the caller has already selected this worker's scenarios.
 func RunAllDevWhole(c *vlib.Ctx, scs []*Scenario, bound int) {
